@@ -6,6 +6,8 @@ package keeper
 // util.GetSignatureAlgorithmFromString (the hash / base64 / x509 primitives are uninterpreted functions).
 
 import (
+	"crypto/x509"
+
 	"github.com/chain4energy/c4e-chain/x/cfesignature/types"
 	"github.com/cosmos/cosmos-sdk/store/prefix"
 	sdk "github.com/cosmos/cosmos-sdk/types"
@@ -74,11 +76,11 @@ func Verif_C15_verify_sound() {
 	var algo int64
 	switch stored.Algorithm {
 	case "dsaWithSha256":
-		algo = 7
+		algo = int64(x509.DSAWithSHA256)
 	case "ecdsaWithSha256":
-		algo = 10
+		algo = int64(x509.ECDSAWithSHA256)
 	case "sha256WithRsaEncryption":
-		algo = 4
+		algo = int64(x509.SHA256WithRSA)
 	}
 	expectValid := wellFormedReq && hasSig && hasLink &&
 		verif_uf_bool("b64_wellformed", stored.Signature) && algOK && verif_uf_bool("cert_wellformed", stored.Certificate) &&
